@@ -98,7 +98,9 @@ re-verified on the unchanged tree over several `VERIF_SEED` values):
   four-state DFA whose state set re-hashes when a fifth state is added.
 
 `./selftest regressions` re-introduces each of the repaired defects alone (reverse patch on a scratch copy) and
-requires the owning check to report it again: all re-found in the quick tier. `./selftest sensitivity` applies a
+requires the owning check to report it again: all 45 re-found in the quick tier (last run on the final code; twice
+a later workload change had made an earlier repair invisible -- FX-24 after the importer fix, FX-36 after a pool
+change -- and the workload was adjusted until it was found again). `./selftest sensitivity` applies a
 catalogue of 48 hand-written one-place mutants (all caught) and 14 behaviour-preserving control edits of internal names, numbering and enumeration order (all quiet) (one mutant of the first catalogue was replaced and one re-qualified after
 analysis: keeping useless duplication rules cannot change emptiness (equivalent), and the
 inverted chart-subsumption filter is invisible on flat structures without re-entrancy but caught once one variable
